@@ -36,9 +36,10 @@ ASSUME = {
 }
 
 INCA = ["A-hash", "A-clone", "A-std", "A-fs", "A-codec", "A-cmd", "A-arith", "A-all", "R1"]
+CFGA = ["A-hash", "A-clone", "A-std", "A-yaml", "A-all"]
 ACTORS = ["A-hash", "A-clone", "A-std", "A-chan", "A-proc", "A-bridge", "R1", "R16"]
 PROPS = {
-    "C01": {"units": ["ACT", "RELAY"], "level": "proof", "assume": ACTORS},
+    "C01": {"units": ["ACT", "RELAY", "CFG"], "level": "proof", "assume": ACTORS},
     "C04": {"units": ["ACT", "RELAY"], "level": "proof", "assume": ACTORS + ["A-exec"],
             "not_covered": ["not covered: liveness itself (executor fairness, that scripts terminate, any time bound) - only the safety skeleton of termination is proved"]},
     "C02": {"units": ["INC"], "level": "proof", "assume": INCA,
@@ -50,13 +51,19 @@ PROPS = {
             "not_covered": ["not covered: convergence as a liveness statement; notify's delivery guarantees"]},
     "C07": {"units": ["BLD", "ACT", "RELAY", "CLN"], "level": "proof", "assume": ACTORS,
             "not_covered": ["not covered: the text of the error message"]},
-    "C08": {"units": ["ACT", "BLD", "RELAY", "CLN"], "level": "proof", "assume": ACTORS,
+    "C08": {"units": ["ACT", "BLD", "RELAY", "CLN", "CFG"], "level": "proof", "assume": ACTORS,
             "not_covered": ["not covered: 'at least once' is C04's liveness"]},
+    "C09": {"units": ["CFG", "CLN"], "level": "proof", "assume": CFGA,
+            "not_covered": ["not covered: YAML -> yaml::Project (A-yaml); reference parsing inside transform_target (bounded Kani harness of C19); termination of the recursion is not proved (no decreases measure yet), so 'a cyclic project never hangs' rests on the ancestor-chain check [C09.acyclic] only; soundness ('every key is reachable from a root') not proved"]},
     "C10": {"units": ["BLD", "ACT", "RELAY", "CLN"], "level": "proof", "assume": ACTORS,
             "not_covered": ["not covered: any latency bound; grandchildren of the shell; the hand-off from the signal handler task"]},
     "C11": {"units": ["ACT", "RELAY"], "level": "proof", "assume": ACTORS},
     "C12": {"units": ["CLN", "INC"], "level": "proof", "assume": ["A-hash", "A-std", "A-fs", "A-clap", "R1"],
             "not_covered": ["not covered: what remove_dir_all and the directory walk do with symbolic links (A-fs); clap argument parsing"]},
+    "C13": {"units": ["CFG", "INC"], "level": "proof", "assume": CFGA + ["A-fs", "A-codec", "A-cmd"],
+            "not_covered": ["not covered: project_dir.join(path) inside transform_input/_output (iterator closures; assumed by transform_target's contract)"]},
+    "C14": {"units": ["CFG"], "level": "proof", "assume": CFGA,
+            "not_covered": ["not applicable within C14: totality and strictness of parsing (serde_yaml, derive attributes, regexes) - third-party parser code with no contract within reach; only the uniqueness / import-name / injectivity half is proved"]},
     "C16": {"units": ["WCH"], "level": "proof", "assume": ["A-std", "A-chan", "A-notify", "A-str", "A-all"],
             "not_covered": ["not covered: notify itself, recursion into directories created later; the byte-level behaviour of the str predicates (bounded Kani harnesses in the KANI unit)"]},
     "C18": {"units": ["INC"], "level": "proof", "assume": INCA,
